@@ -1167,6 +1167,10 @@ def dist_pair(m1, r1, m2, r2, acc, case):
             acc.fail("kc:ts:vs_tree_average" + (":internal_sample" if (sample_root or nested) else ""),
                      f"TreeSequence.kc_distance lambda={lam} = {got} but the overlap-weighted "
                      f"average of Tree.kc_distance is {avg}", case)
+        # Trees in which a sample is an ancestor of another sample are NOT judged against the vector
+        # definition: there the per-tree algorithm, the tree-sequence algorithm and the naive reading of
+        # "internal samples are treated identically to sample tips" give three different answers on the
+        # unchanged tree (see the known finding kc:ts:vs_tree_average:internal_sample).
         if not nested:
             exp = RS.kc_distance_ts(r1, r2, lam)
             acc.ev(1, exp > 0)
